@@ -460,7 +460,13 @@ class DataFrameModel(Generic[TDataFrame, TSchema], BaseModel):
         matched: Set[str] = set()
         for regex in regexps:
             pattern = re.compile(regex)
-            matched.update(filter(pattern.match, seq))
+            # a name that is not a string (e.g. an integer alias) matches no
+            # regular expression
+            matched.update(
+                item
+                for item in seq
+                if isinstance(item, str) and pattern.match(item)
+            )
         return matched
 
     @classmethod
